@@ -61,3 +61,88 @@ Example C01_nonvacuous :
   run Repaired EProgram [TCmd CMove; TId (IdName 0); TInt 9223372036854775808] = OErr /\
   run Repaired EExpression [TOp OMinus; TLParen; TInt 1; TOp OPlus; TId (IdRes RPi); TRParen] = OOk.
 Proof. vm_compute. repeat split. Qed.
+
+(** * The lexer, at byte level (Model/Lex.v, proofs in Proofs/LexProofs.v)
+
+    [Lex.lex] is a transliteration of [parser::lexer::lex] = [all_consuming(_lex)] on the bytes of
+    the input text, reusing the proved partial models of string, number and identifier lexing
+    (C07, C05, C06).  It is tied to the real lexer by the [CLex] cases of the C01 run: complete
+    token streams, lex errors and panics of [quil_rs::verif::lex_debug] on exhaustive short texts
+    and sampled long ones. *)
+From QV Require Import Model.Lex Proofs.LexProofs.
+
+(** The model is a total function whose only outcomes are: a token list, "input left over" (some
+    byte starts no token) or "malformed number" (nom [Failure] from the number lexer).  It never
+    runs out of its explicit fuel and never reports nom's [many0] infinite-loop error. *)
+Theorem C01_lex_total : forall bytes : list N,
+  (exists ts, lex bytes = LexOk ts) \/ lex bytes = LexErr ELeftover \/ lex bytes = LexErr EFailure.
+Proof. exact lex_total. Qed.
+
+(** The fuel [lex] gives its token loop (input length + 1) suffices, and any larger fuel computes
+    exactly the same spans, stop reason and remaining input. *)
+Theorem C01_lex_fuel_sufficient : forall (bytes : list N) (fuel : nat),
+  (length bytes < fuel)%nat ->
+  lex_loop fuel (length bytes) bytes = lex_spans bytes /\ lex bytes <> LexErr EFuel.
+Proof. intros bytes fuel H. split; [exact (lex_fuel_sufficient bytes fuel H) | exact (lex_never_fuel bytes)]. Qed.
+
+(** Progress, the invariant behind the termination of the real [many0] loop: one iteration
+    (indentation, or spaces followed by a token) that succeeds leaves strictly less input than the
+    token started with, which is at most what the iteration started with.  Hence nom's guard
+    [i1.input_len() == i.input_len()] ([ErrorKind::Many0]) never fires. *)
+Theorem C01_lex_progress : forall (inp : list N) (t : ltoken) (at_ rest : list N),
+  lex_item inp = POk (t, at_) rest ->
+  (length rest < length at_ /\ length at_ <= length inp)%nat.
+Proof. exact lex_item_progress. Qed.
+
+Corollary C01_lex_many0_guard_dead : forall bytes : list N, lex bytes <> LexErr EMany0.
+Proof. exact lex_never_many0. Qed.
+
+(** The recorded spans tile the lexed part of the input in order: item start <= token start <
+    token end = next item start; the last token ends where the loop stopped. *)
+Theorem C01_lex_spans_chained : forall (bytes : list N) sps st r,
+  lex_spans bytes = (sps, st, r) -> chained 0 sps (length bytes - length r).
+Proof. exact lex_spans_chained. Qed.
+
+(** Every offset at which the lexer slices its input ([lex_cuts]: token starts and ends, the
+    skipped spaces, sigils, the inside ends of string and comment contents, every offset of the
+    ASCII run that failing alternatives can have matched, trailing whitespace) is a UTF-8 character
+    boundary ([str::is_char_boundary]) whenever the input is well-formed UTF-8.  The real code
+    slices its [&str] by these byte offsets, which panics exactly off a boundary. *)
+Theorem C01_lex_no_slice_mid_char : forall bytes : list N,
+  valid_utf8 bytes = true ->
+  forall k, In k (lex_cuts bytes) -> utf8_boundary bytes k = true.
+Proof. exact lex_no_slice_mid_char. Qed.
+
+(** Without any assumption on the bytes: every such offset is the start, the end, directly after
+    or directly before an ASCII byte. *)
+Theorem C01_lex_cuts_ascii_adjacent : forall (bytes : list N) (k : nat),
+  In k (lex_cuts bytes) -> good_cut bytes k.
+Proof. exact lex_cuts_good. Qed.
+
+(** The lexer case verdict ([CLex] cases, [case_code _ (CLex bytes o) = Lex.lex_code bytes o]): code 0
+    means that the real lexer did not panic, the bytes are well-formed UTF-8, the model agrees with
+    the observed outcome (an error, or a token list matching token by token -- [tok_match_sound]:
+    equal, or for floats the observed binary64 is accepted by C05's nearest-value checker), and all
+    slicing offsets of this text are character boundaries. *)
+Theorem C01_lex_checker_sound : forall (bytes : list N) (o : lobs),
+  ParsePanic.case_code Repaired (CLex bytes o) = 0%N ->
+  o <> LxPanic /\ valid_utf8 bytes = true /\
+  (o = LxErr -> exists e, lex bytes = LexErr e) /\
+  (forall ts, o = LxToks ts -> exists ms, lex bytes = LexOk ms /\ toks_match ms ts = true) /\
+  (forall k, In k (lex_cuts bytes) -> utf8_boundary bytes k = true).
+Proof. intros bytes o H. exact (lex_code_sound bytes o H). Qed.
+
+(** Non-vacuity: a comment and a string holding 2- and 3-byte characters, CR LF, tab indentation.
+    The text is well-formed, lexes to six tokens, all 30-odd cut offsets are boundaries, while the
+    offsets inside the multi-byte characters (never cut) are not. *)
+Example C01_lex_nonvacuous :
+  let text := [35; 195; 169; 13; 10; 9; 34; 230; 151; 165; 92; 34; 34; 32; 64; 97; 45; 49; 32; 46; 53; 101; 49] in
+  valid_utf8 text = true /\
+  lex text = LexOk [LtComment [195; 169; 13]; LtNewLine; LtIndent; LtString [230; 151; 165; 34];
+                    LtTarget [97; 45; 49]; LtFloat (FDec 5 0)] /\
+  forallb (utf8_boundary text) (lex_cuts text) = true /\
+  existsb (Nat.eqb 7) (lex_cuts text) = true /\
+  utf8_boundary text 2 = false /\ utf8_boundary text 8 = false /\ utf8_boundary text 9 = false /\
+  lex [34; 195; 169] = LexErr ELeftover /\ lex [49; 101] = LexErr EFailure /\
+  valid_utf8 [195] = false /\ valid_utf8 [237; 160; 128] = false /\ valid_utf8 [192; 128] = false.
+Proof. vm_compute. repeat split. Qed.
